@@ -11,21 +11,22 @@ for mp in sorted(glob.glob(os.path.join(VERIF, "seeded", "*", "meta.json"))):
     m = json.load(open(mp))
     am = m.get("agent_meta", {})
     conf = m.get("confirmed_by_us", {})
-    checks = conf.get("checks", {})
-    caught = [c for c, r in checks.items() if r.get("exit") == 1]
+    checks = conf.get("checks", {}) or m.get("checks", {})
+    first = m.get("first_run_before_strengthening") or {}
+    caught = [c for c, r in checks.items() if r.get("exit") == 1 and (r.get("concrete") or any("no-failing-input-found" not in v for v in r.get("violations", [])))]
     missed = [c for c, r in checks.items() if r.get("exit") == 0]
     noinput = [c for c, r in checks.items() if any("no-failing-input-found" in v for v in r.get("violations", []))]
-    rows.append((name, m.get("breaks_property"), (am.get("summary") or "")[:160].replace("\n", " ").replace("|", "/"),
+    rows.append((name, m.get("breaks_property") or "none (benign)", (am.get("summary") or "")[:160].replace("\n", " ").replace("|", "/"),
                  (am.get("needs_to_manifest") or "")[:140].replace("\n", " ").replace("|", "/"),
                  str(conf.get("tests_with_change", "")), str(conf.get("demo_with_change", conf.get("demo", ""))),
                  str(conf.get("demo_without_change", "")), ", ".join(caught) or "-", ", ".join(missed) or "-",
-                 ", ".join(noinput) or "-"))
+                 ", ".join(noinput) or "-", ", ".join(c for c, r in first.items() if r.get("exit") == 0) or "-"))
 with open(os.path.join(VERIF, "seeded", "SUMMARY.md"), "w") as f:
     f.write("# Seeded changes (written by independent sub-agents from the property text only)\n\n")
     f.write("Each was confirmed by us in a scratch worktree (existing suite passes with the change; the demonstration fails with it and "
             "passes without it), then applied to /repo, the listed checks run, and undone.\n\n")
-    f.write("| name | property | change | needs to manifest | suite with change | demo with | demo without | caught by | not reported by | reported without input |\n")
-    f.write("|---|---|---|---|---|---|---|---|---|---|\n")
+    f.write("| name | property | change | needs to manifest | suite with change | demo with | demo without | caught by | not reported by | reported without input | missed at the first run (before strengthening) |\n")
+    f.write("|---|---|---|---|---|---|---|---|---|---|---|\n")
     for r in rows:
         f.write("| " + " | ".join(r) + " |\n")
 print(open(os.path.join(VERIF, "seeded", "SUMMARY.md")).read())
